@@ -243,7 +243,11 @@ structure Params where
   width : Nat := 174
   deriving Repr
 
-def isHiddenName (n : String) : Bool := n.startsWith "."
+/-- go-ipfs-files `isHidden`: the name begins with a dot -/
+def isHiddenName (n : String) : Bool :=
+  match n.toList with
+  | c :: _ => c == '.'
+  | [] => false
 
 mutual
 /-- go-ipfs-files serial directories: dot-entries are skipped unless hidden files are asked for -/
